@@ -20,6 +20,7 @@ pub fn streams() -> Vec<Stream> {
         Stream { name: "C20.mem", gen: gen_mem, imp: imp_mem, oracle: oracle_mem },
         Stream { name: "C20.disk", gen: gen_disk, imp: imp_disk, oracle: oracle_disk },
         Stream { name: "C20.ret", gen: gen_ret, imp: imp_ret, oracle: oracle_ret },
+        Stream { name: "C20.wsc", gen: gen_wsc, imp: imp_wsc, oracle: oracle_wsc },
     ]
 }
 
@@ -1302,6 +1303,750 @@ fn gen_ret(rng: &mut Rng, tier: Tier) -> Vec<String> {
                     }
                     _ => format!("put {} {}", rng.below(2), rng.below(nb)),
                 }
+            })
+            .collect();
+        line.push_str(&format!(" {} {}", ops.len(), ops.join(" ")));
+        out.push(line);
+    }
+    out
+}
+
+// ------------------------------------------------------------------ C20.wsc
+// Retained-evidence records -> WSC envelope -> FilesystemWscStore (envelope file + commit marker,
+// both attacked) -> re-import.  Line: `nsets (<envelope id|-> nm material* nr reading*)* nops op*`.
+
+use warp_core::causal_wal::{EvidenceMaterialPosture, ReadingRefRecord, RetainedMaterialKind, RetainedMaterialRecord};
+use warp_core::wsc::{
+    retention_records_from_wsc_envelope, retention_records_from_wsc_store, retention_records_to_wsc_envelope, FilesystemWscStore,
+    WscRetentionRecords, WscStoreEnvelope, WscStoreObstruction, WscStoreObstructionKind, WscStorePort,
+};
+
+const KINDS: [RetainedMaterialKind; 7] = [
+    RetainedMaterialKind::SubmissionPayload,
+    RetainedMaterialKind::TickReceipt,
+    RetainedMaterialKind::RuntimeStateDelta,
+    RetainedMaterialKind::RuntimeControl,
+    RetainedMaterialKind::ReadingPayload,
+    RetainedMaterialKind::ReadingEnvelope,
+    RetainedMaterialKind::Diagnostic,
+];
+const POSTURES: [EvidenceMaterialPosture; 6] = [
+    EvidenceMaterialPosture::Present,
+    EvidenceMaterialPosture::RedactedByPolicy,
+    EvidenceMaterialPosture::EncryptedKeyUnavailable,
+    EvidenceMaterialPosture::Missing,
+    EvidenceMaterialPosture::Corrupt,
+    EvidenceMaterialPosture::Obstructed,
+];
+const ENV_HEADER_LEN: u64 = 124;
+const MARKER_LEN: u64 = 188;
+
+fn kind_code(k: RetainedMaterialKind) -> usize {
+    KINDS.iter().position(|x| *x == k).map_or(0, |p| p + 1)
+}
+fn posture_code(k: EvidenceMaterialPosture) -> usize {
+    POSTURES.iter().position(|x| *x == k).map_or(0, |p| p + 1)
+}
+
+struct WSet {
+    id: Option<H32>,
+    ms: Vec<RetainedMaterialRecord>,
+    rs: Vec<ReadingRefRecord>,
+}
+
+#[derive(Clone, Debug)]
+enum WCmd {
+    Write(usize),
+    Stage(usize),
+    Commit(usize),
+    Read(usize),
+    DelEnv(usize),
+    DelMark(usize),
+    FlipEnv(usize, u64),
+    FlipMark(usize, u64),
+    PlantEnv(usize, usize),
+    List,
+    Import,
+    Reopen,
+}
+
+struct WCase {
+    sets: Vec<WSet>,
+    cmds: Vec<WCmd>,
+}
+
+fn parse_wsc(t: &mut Toks) -> Result<WCase, String> {
+    let ns = t.num()?;
+    let mut sets = Vec::new();
+    for _ in 0..ns {
+        let idt = t.next()?;
+        let id = if idt == "-" { None } else { Some(crate::util::id32(idt)?) };
+        let nm = t.num()?;
+        let mut ms = Vec::new();
+        for _ in 0..nm {
+            let material_digest = t.id()?;
+            let semantic_coordinate_digest = t.id()?;
+            let kind = *KINDS.get((t.num()? as usize).wrapping_sub(1)).ok_or("bad kind")?;
+            let posture = *POSTURES.get((t.num()? as usize).wrapping_sub(1)).ok_or("bad posture")?;
+            ms.push(RetainedMaterialRecord { material_digest, semantic_coordinate_digest, kind, posture });
+        }
+        let nr = t.num()?;
+        let mut rs = Vec::new();
+        for _ in 0..nr {
+            let reading_id = t.id()?;
+            let semantic_coordinate_digest = t.id()?;
+            let payload_digest = t.id()?;
+            let envelope_digest = t.id()?;
+            let posture = *POSTURES.get((t.num()? as usize).wrapping_sub(1)).ok_or("bad posture")?;
+            rs.push(ReadingRefRecord { reading_id, semantic_coordinate_digest, payload_digest, envelope_digest, posture });
+        }
+        sets.push(WSet { id, ms, rs });
+    }
+    let n = t.num()?;
+    let mut cmds = Vec::new();
+    let six = |t: &mut Toks, n: usize| -> Result<usize, String> {
+        let i = t.num()? as usize;
+        if i < n {
+            Ok(i)
+        } else {
+            Err(format!("bad set index {i}"))
+        }
+    };
+    for _ in 0..n {
+        let c = match t.next()? {
+            "write" => WCmd::Write(six(t, sets.len())?),
+            "stage" => WCmd::Stage(six(t, sets.len())?),
+            "commit" => WCmd::Commit(six(t, sets.len())?),
+            "read" => WCmd::Read(six(t, sets.len())?),
+            "delenv" => WCmd::DelEnv(six(t, sets.len())?),
+            "delmark" => WCmd::DelMark(six(t, sets.len())?),
+            "flipenv" => {
+                let i = six(t, sets.len())?;
+                WCmd::FlipEnv(i, t.num()?)
+            }
+            "flipmark" => {
+                let i = six(t, sets.len())?;
+                let k = t.num()?;
+                if k >= MARKER_LEN {
+                    return Err("marker offset out of range".into());
+                }
+                WCmd::FlipMark(i, k)
+            }
+            "plantenv" => {
+                let i = six(t, sets.len())?;
+                WCmd::PlantEnv(i, six(t, sets.len())?)
+            }
+            "list" => WCmd::List,
+            "import" => WCmd::Import,
+            "reopen" => WCmd::Reopen,
+            o => return Err(format!("bad op {o}")),
+        };
+        cmds.push(c);
+    }
+    if !t.done() {
+        return Err("trailing tokens".into());
+    }
+    Ok(WCase { sets, cmds })
+}
+
+fn res_class(e: &WscStoreObstruction) -> &'static str {
+    match e.kind {
+        WscStoreObstructionKind::MissingEnvelope => "missing",
+        WscStoreObstructionKind::IncompleteEnvelopeWrite => "incomplete",
+        WscStoreObstructionKind::FilesystemIo => "io",
+        _ => "obstructed",
+    }
+}
+
+fn recs_s(r: &WscRetentionRecords) -> String {
+    let mut s = format!("m {}", r.materials.len());
+    for m in &r.materials {
+        s.push_str(&format!(" {} {} {} {}", hex(&m.material_digest), hex(&m.semantic_coordinate_digest), kind_code(m.kind), posture_code(m.posture)));
+    }
+    s.push_str(&format!(" r {}", r.readings.len()));
+    for x in &r.readings {
+        s.push_str(&format!(
+            " {} {} {} {} {}",
+            hex(&x.reading_id),
+            hex(&x.semantic_coordinate_digest),
+            hex(&x.payload_digest),
+            hex(&x.envelope_digest),
+            posture_code(x.posture)
+        ));
+    }
+    s
+}
+
+/// Flip bit 0 of byte `k` of the file (k >= header length addresses the LAST byte); no-op if absent.
+fn flip_file(path: &Path, k: u64, header_len: u64) -> Result<(), String> {
+    let mut b = match std::fs::read(path) {
+        Ok(b) => b,
+        Err(e) if e.kind() == std::io::ErrorKind::NotFound => return Ok(()),
+        Err(e) => return Err(format!("adv read: {e}")),
+    };
+    if b.is_empty() {
+        return Ok(());
+    }
+    let ix = if k >= header_len { b.len() - 1 } else { (k as usize).min(b.len() - 1) };
+    b[ix] ^= 1;
+    std::fs::write(path, b).map_err(|e| format!("adv write: {e}"))
+}
+
+fn rm_file(path: &Path) -> Result<(), String> {
+    match std::fs::remove_file(path) {
+        Ok(()) => Ok(()),
+        Err(e) if e.kind() == std::io::ErrorKind::NotFound => Ok(()),
+        Err(e) => Err(format!("adv delete: {e}")),
+    }
+}
+
+fn wopen(root: &Path) -> Result<FilesystemWscStore, String> {
+    FilesystemWscStore::open(root).map_err(|e| format!("open: {}", res_class(&e)))
+}
+
+fn list_w(s: &FilesystemWscStore) -> String {
+    let v = s.list_envelopes();
+    let mut o = format!("list {}", v.len());
+    for id in v {
+        o.push_str(&format!(" {}", hex(&id.as_hash())));
+    }
+    o
+}
+
+fn read_s(s: &FilesystemWscStore, env: &WscStoreEnvelope) -> String {
+    match s.read_envelope(env.id()) {
+        Ok(e) if e == *env => format!("ok {}", hex(&e.id().as_hash())),
+        Ok(_) => "ok-but-different-envelope".into(),
+        Err(e) => res_class(&e).into(),
+    }
+}
+
+fn imp_wsc(t: &mut Toks) -> Result<String, String> {
+    let c = parse_wsc(t)?;
+    let mut heads = Vec::new();
+    let mut envs: Vec<Option<WscStoreEnvelope>> = Vec::new();
+    for x in &c.sets {
+        match retention_records_to_wsc_envelope(&x.ms, &x.rs) {
+            Ok(env) => {
+                if x.id != Some(env.id().as_hash()) {
+                    return Err("envelope id annotation does not match the exported envelope".into());
+                }
+                let re = match retention_records_from_wsc_envelope(&env) {
+                    Ok(r) => recs_s(&r),
+                    Err(e) => format!("reimport-{}", res_class(&e)),
+                };
+                heads.push(format!("ok {} {} {}", hex(&env.id().as_hash()), hex(env.basis_digest()), re));
+                envs.push(Some(env));
+            }
+            Err(e) if e.kind == WscStoreObstructionKind::DuplicateEnvelopeMismatch => {
+                if x.id.is_some() {
+                    return Err("envelope id annotation present but the export is refused".into());
+                }
+                heads.push("conflict".into());
+                envs.push(None);
+            }
+            Err(e) => {
+                heads.push(format!("export-{}", res_class(&e)));
+                envs.push(None);
+            }
+        }
+    }
+    let scratch = Scratch::new()?;
+    let root = scratch.0.join("wsc");
+    let mut s = wopen(&root)?;
+    let mut outs: Vec<String> = Vec::new();
+    let r2s = |r: Result<(), WscStoreObstruction>| -> String {
+        match r {
+            Ok(()) => "ok".into(),
+            Err(e) => res_class(&e).into(),
+        }
+    };
+    for cmd in &c.cmds {
+        let o = match cmd {
+            WCmd::Write(i) | WCmd::Stage(i) | WCmd::Commit(i) | WCmd::Read(i) | WCmd::DelEnv(i) | WCmd::DelMark(i) | WCmd::FlipEnv(i, _) | WCmd::FlipMark(i, _)
+                if envs[*i].is_none() =>
+            {
+                "no-envelope".to_string()
+            }
+            WCmd::PlantEnv(i, j) if envs[*i].is_none() || envs[*j].is_none() => "no-envelope".to_string(),
+            WCmd::Write(i) => r2s(s.write_envelope(envs[*i].clone().ok_or("env")?).map(|_| ())),
+            WCmd::Stage(i) => r2s(s.stage_envelope_without_commit_marker(envs[*i].clone().ok_or("env")?).map(|_| ())),
+            WCmd::Commit(i) => r2s(s.commit_staged_envelope(envs[*i].as_ref().ok_or("env")?.id()).map(|_| ())),
+            WCmd::Read(i) => read_s(&s, envs[*i].as_ref().ok_or("env")?),
+            WCmd::DelEnv(i) => {
+                rm_file(&s.envelope_path(envs[*i].as_ref().ok_or("env")?.id()))?;
+                "adv".into()
+            }
+            WCmd::DelMark(i) => {
+                rm_file(&s.commit_marker_path(envs[*i].as_ref().ok_or("env")?.id()))?;
+                "adv".into()
+            }
+            WCmd::FlipEnv(i, k) => {
+                flip_file(&s.envelope_path(envs[*i].as_ref().ok_or("env")?.id()), *k, ENV_HEADER_LEN)?;
+                "adv".into()
+            }
+            WCmd::FlipMark(i, k) => {
+                flip_file(&s.commit_marker_path(envs[*i].as_ref().ok_or("env")?.id()), *k, MARKER_LEN)?;
+                "adv".into()
+            }
+            WCmd::PlantEnv(i, j) => {
+                let bytes = envs[*j].as_ref().ok_or("env")?.encode();
+                std::fs::write(s.envelope_path(envs[*i].as_ref().ok_or("env")?.id()), bytes).map_err(|e| format!("adv plant: {e}"))?;
+                "adv".into()
+            }
+            WCmd::List => list_w(&s),
+            WCmd::Import => match retention_records_from_wsc_store(&s) {
+                Ok(r) => format!("records {}", recs_s(&r)),
+                Err(e) if e.kind == WscStoreObstructionKind::DuplicateEnvelopeMismatch && matches!(e.subject, warp_core::wsc::WscStoreSubject::Envelope { envelope_id } if !envs.iter().flatten().any(|x| x.id() == envelope_id)) => {
+                    // the subject is a record identity, not an envelope of this case: cross-envelope record conflict
+                    "conflict".into()
+                }
+                Err(e) => format!("blocked {}", res_class(&e)),
+            },
+            WCmd::Reopen => {
+                s = wopen(&root)?;
+                "reopened".into()
+            }
+        };
+        outs.push(o);
+    }
+    let fin: Vec<String> = envs
+        .iter()
+        .map(|e| match e {
+            Some(env) => read_s(&s, env),
+            None => "no-envelope".into(),
+        })
+        .collect();
+    Ok(format!("{} ;; {} ;; {} ; {}", heads.join(" ; "), outs.join(" ; "), list_w(&s), fin.join(" ; ")))
+}
+
+/// Reference canonicalisation, written independently of the code: sorted, duplicate-free, `None`
+/// when two different records share an identity.
+fn ref_canon<T: Clone + PartialEq, K: Ord, I: Ord + Clone>(xs: &[T], key: impl Fn(&T) -> K, ident: impl Fn(&T) -> I) -> Option<Vec<T>> {
+    for a in xs {
+        for b in xs {
+            if ident(a) == ident(b) && a != b {
+                return None;
+            }
+        }
+    }
+    let mut v: Vec<T> = Vec::new();
+    for x in xs {
+        if !v.contains(x) {
+            v.push(x.clone());
+        }
+    }
+    v.sort_by_key(|x| key(x));
+    Some(v)
+}
+
+fn ref_records(ms: &[RetainedMaterialRecord], rs: &[ReadingRefRecord]) -> Option<WscRetentionRecords> {
+    let materials = ref_canon(ms, |m| (m.material_digest, m.semantic_coordinate_digest, kind_code(m.kind), posture_code(m.posture)), |m| m.material_digest)?;
+    let readings = ref_canon(
+        rs,
+        |r| (r.reading_id, r.semantic_coordinate_digest, r.payload_digest, r.envelope_digest, posture_code(r.posture)),
+        |r| r.reading_id,
+    )?;
+    Some(WscRetentionRecords { materials, readings })
+}
+
+fn oracle_wsc(t: &mut Toks, tier: Tier) -> Result<OracleOut, String> {
+    let c = parse_wsc(t)?;
+    let mut o = OracleOut::default();
+    let fail = |o: &mut OracleOut, k: &str, w: String| {
+        if !o.fails.iter().any(|(kk, _)| kk == k) {
+            o.fails.push((k.to_string(), w));
+        }
+    };
+    // ---- export / re-import of every record set
+    let mut envs: Vec<Option<WscStoreEnvelope>> = Vec::new();
+    for (i, x) in c.sets.iter().enumerate() {
+        let want = ref_records(&x.ms, &x.rs);
+        match (retention_records_to_wsc_envelope(&x.ms, &x.rs), &want) {
+            (Ok(env), Some(w)) => {
+                match retention_records_from_wsc_envelope(&env) {
+                    Ok(r) if r == *w => {}
+                    Ok(_) => fail(&mut o, "C20.wsc-reimport-differs", format!("set {i}: re-imported records differ from the exported set")),
+                    Err(e) => fail(&mut o, "C20.wsc-reimport-refused", format!("set {i}: {:?}", e.kind)),
+                }
+                // order and duplication of the input must not matter
+                let mut ms2 = x.ms.clone();
+                ms2.reverse();
+                ms2.extend(x.ms.iter().copied());
+                let mut rs2 = x.rs.clone();
+                rs2.reverse();
+                match retention_records_to_wsc_envelope(&ms2, &rs2) {
+                    Ok(e2) if e2 == env => {}
+                    _ => fail(&mut o, "C20.wsc-export-order-dependent", format!("set {i}: reversed/duplicated input exported a different envelope")),
+                }
+                // encode / decode and byte-level corruption of the encoding
+                let enc = env.encode();
+                match WscStoreEnvelope::decode(&enc) {
+                    Ok(d) if d == env => {}
+                    _ => fail(&mut o, "C20.wsc-envelope-roundtrip", format!("set {i}: decode(encode(e)) != e")),
+                }
+                let positions: Vec<usize> = if tier == Tier::Thorough {
+                    (0..enc.len()).collect()
+                } else {
+                    let mut p: Vec<usize> = (0..ENV_HEADER_LEN as usize).step_by(3).collect();
+                    p.extend([10, 11, 12, 44, 76, 108, 116, 123, 124, enc.len() / 2, enc.len() - 1]);
+                    p
+                };
+                for p in positions {
+                    let mut bad = enc.clone();
+                    bad[p] ^= 1 << (p % 8);
+                    if let Ok(d) = WscStoreEnvelope::decode(&bad) {
+                        if d.id() == env.id() {
+                            fail(&mut o, "C20.wsc-corrupt-envelope-accepted", format!("set {i}: flipping byte {p} still decodes to the same envelope id"));
+                        }
+                    }
+                }
+                if WscStoreEnvelope::decode(&enc[..enc.len() - 1]).is_ok() || WscStoreEnvelope::decode(&[enc.clone(), vec![0]].concat()).is_ok() {
+                    fail(&mut o, "C20.wsc-corrupt-envelope-accepted", format!("set {i}: truncated/extended encoding accepted"));
+                }
+                o.tags.push("export-ok".into());
+                envs.push(Some(env));
+            }
+            (Err(e), None) => {
+                if e.kind != WscStoreObstructionKind::DuplicateEnvelopeMismatch {
+                    fail(&mut o, "C20.wsc-untyped-conflict", format!("set {i}: {:?}", e.kind));
+                }
+                o.tags.push("export-conflict".into());
+                envs.push(None);
+            }
+            (Ok(_), None) => {
+                fail(&mut o, "C20.wsc-alias-exported", format!("set {i}: two different records under one identity were exported"));
+                envs.push(None);
+            }
+            (Err(e), Some(_)) => {
+                fail(&mut o, "C20.wsc-export-refused-valid", format!("set {i}: {:?}", e.kind));
+                envs.push(None);
+            }
+        }
+    }
+    // ---- the store under attack: reference = actual bytes of both files per envelope id
+    let scratch = Scratch::new()?;
+    let root = scratch.0.join("wsc");
+    let mut s = wopen(&root)?;
+    let mut committed_once = false;
+    // marker bytes as first published by the store itself, per envelope id
+    let mut pristine_marker: BTreeMap<H32, Vec<u8>> = BTreeMap::new();
+    let check_all = |o: &mut OracleOut, s: &FilesystemWscStore, pristine_marker: &BTreeMap<H32, Vec<u8>>, at: &str| {
+        use WscStoreObstructionKind as K;
+        for env in envs.iter().flatten() {
+            let ef = std::fs::read(s.envelope_path(env.id())).ok();
+            let mf = std::fs::read(s.commit_marker_path(env.id())).ok();
+            let pristine_env = ef.as_deref() == Some(env.encode().as_slice());
+            let pristine_mark = mf.is_some() && mf.as_ref() == pristine_marker.get(&env.id().as_hash());
+            let r = s.read_envelope(env.id());
+            // corrupt material is answered with the obstruction family of the corrupt file
+            if let (Err(e), Some(_)) = (&r, &ef) {
+                if !pristine_env && !matches!(e.kind, K::InvalidEnvelope | K::InvalidWsc | K::DigestMismatch | K::DuplicateEnvelopeMismatch) {
+                    fail(o, "C20.wsc-wrong-obstruction", format!("{at}: corrupted envelope file reported as {:?}", e.kind));
+                }
+            }
+            if let (Err(e), Some(_)) = (&r, &mf) {
+                if (pristine_env || ef.is_none()) && !pristine_mark && !matches!(e.kind, K::InvalidCommitMarker | K::CommitMarkerMismatch) {
+                    fail(o, "C20.wsc-wrong-obstruction", format!("{at}: corrupted commit marker reported as {:?}", e.kind));
+                }
+            }
+            if pristine_env && pristine_mark && r.is_err() {
+                fail(o, "C20.wsc-intact-unreadable", format!("{at}: both files intact but read_envelope is obstructed"));
+            }
+            match (&r, &ef, &mf) {
+                (Ok(e), _, _) => {
+                    if e != env || !pristine_env || !pristine_mark {
+                        fail(o, "C20.wsc-read-not-intact", format!("{at}: read_envelope returned Ok although the stored material is not the committed envelope"));
+                    }
+                }
+                (Err(e), None, None) => {
+                    if e.kind != WscStoreObstructionKind::MissingEnvelope {
+                        fail(o, "C20.wsc-wrong-obstruction", format!("{at}: both files absent but {:?}", e.kind));
+                    }
+                }
+                (Err(e), Some(_), None) | (Err(e), None, Some(_)) => {
+                    if e.kind == WscStoreObstructionKind::MissingEnvelope || e.kind == WscStoreObstructionKind::FilesystemIo {
+                        fail(o, "C20.wsc-wrong-obstruction", format!("{at}: half-written envelope reported as {:?}", e.kind));
+                    }
+                }
+                (Err(e), Some(_), Some(_)) => {
+                    if matches!(e.kind, WscStoreObstructionKind::MissingEnvelope | WscStoreObstructionKind::FilesystemIo) {
+                        fail(o, "C20.wsc-wrong-obstruction", format!("{at}: {:?}", e.kind));
+                    }
+                }
+            }
+        }
+    };
+    for (n, cmd) in c.cmds.iter().enumerate() {
+        let at = format!("op {n}");
+        let env_of = |i: &usize| envs[*i].as_ref();
+        match cmd {
+            WCmd::Write(i) => {
+                if let Some(env) = env_of(i) {
+                    let r = s.write_envelope(env.clone());
+                    if r.is_ok() {
+                        committed_once = true;
+                        if let Ok(mb) = std::fs::read(s.commit_marker_path(env.id())) {
+                            pristine_marker.entry(env.id().as_hash()).or_insert(mb);
+                        }
+                        match s.read_envelope(env.id()) {
+                            Ok(e) if e == *env => {}
+                            _ => fail(&mut o, "C20.wsc-acknowledged-write-unreadable", format!("{at}: write_envelope returned Ok but read_envelope does not return it")),
+                        }
+                        let again = s.write_envelope(env.clone());
+                        if again != r {
+                            fail(&mut o, "C20.wsc-write-not-idempotent", at.clone());
+                        }
+                    }
+                    o.tags.push(if r.is_ok() { "write-ok".into() } else { "write-obstructed".into() });
+                }
+            }
+            WCmd::Stage(i) => {
+                if let Some(env) = env_of(i) {
+                    let had_marker = s.commit_marker_path(env.id()).exists();
+                    if s.stage_envelope_without_commit_marker(env.clone()).is_ok() && !had_marker {
+                        if s.read_envelope(env.id()).is_ok() {
+                            fail(&mut o, "C20.wsc-staged-visible", format!("{at}: a staged, uncommitted envelope is readable"));
+                        }
+                        o.tags.push("staged-invisible".into());
+                    }
+                }
+            }
+            WCmd::Commit(i) => {
+                if let Some(env) = env_of(i) {
+                    if s.commit_staged_envelope(env.id()).is_ok() {
+                        committed_once = true;
+                        if let Ok(mb) = std::fs::read(s.commit_marker_path(env.id())) {
+                            pristine_marker.entry(env.id().as_hash()).or_insert(mb);
+                        }
+                        match s.read_envelope(env.id()) {
+                            Ok(e) if e == *env => {}
+                            _ => fail(&mut o, "C20.wsc-acknowledged-write-unreadable", format!("{at}: commit_staged_envelope returned Ok but read_envelope does not return the envelope")),
+                        }
+                    }
+                }
+            }
+            WCmd::Read(_) | WCmd::List => {}
+            WCmd::DelEnv(i) => {
+                if let Some(env) = env_of(i) {
+                    rm_file(&s.envelope_path(env.id()))?;
+                    o.tags.push("adv-del-env".into());
+                }
+            }
+            WCmd::DelMark(i) => {
+                if let Some(env) = env_of(i) {
+                    rm_file(&s.commit_marker_path(env.id()))?;
+                    o.tags.push("adv-del-marker".into());
+                }
+            }
+            WCmd::FlipEnv(i, k) => {
+                if let Some(env) = env_of(i) {
+                    flip_file(&s.envelope_path(env.id()), *k, ENV_HEADER_LEN)?;
+                    o.tags.push("adv-flip-env".into());
+                }
+            }
+            WCmd::FlipMark(i, k) => {
+                if let Some(env) = env_of(i) {
+                    flip_file(&s.commit_marker_path(env.id()), *k, MARKER_LEN)?;
+                    o.tags.push("adv-flip-marker".into());
+                }
+            }
+            WCmd::PlantEnv(i, j) => {
+                if let (Some(a), Some(b)) = (env_of(i), env_of(j)) {
+                    std::fs::write(s.envelope_path(a.id()), b.encode()).map_err(|e| format!("adv plant: {e}"))?;
+                    o.tags.push("adv-plant-env".into());
+                }
+            }
+            WCmd::Import => {
+                // what is readable right now, pooled and canonicalised by the reference
+                let ids = s.list_envelopes();
+                let mut blocked = false;
+                let mut ms = Vec::new();
+                let mut rs = Vec::new();
+                for id in &ids {
+                    match envs.iter().flatten().find(|e| e.id() == *id) {
+                        Some(env) if s.read_envelope(*id).is_ok() => {
+                            if let Some(x) = c.sets.iter().zip(envs.iter()).find(|(_, e)| e.as_ref() == Some(env)) {
+                                ms.extend(x.0.ms.iter().copied());
+                                rs.extend(x.0.rs.iter().copied());
+                            }
+                        }
+                        _ => blocked = true,
+                    }
+                }
+                let got = retention_records_from_wsc_store(&s);
+                if blocked {
+                    if got.is_ok() {
+                        fail(&mut o, "C20.wsc-import-ignores-obstruction", format!("{at}: import succeeded although a listed envelope is unreadable"));
+                    }
+                    o.tags.push("import-blocked".into());
+                } else {
+                    match (got, ref_records(&ms, &rs)) {
+                        (Ok(g), Some(w)) => {
+                            if g != w {
+                                fail(&mut o, "C20.wsc-reimport-differs", format!("{at}: store import differs from the union of the committed sets"));
+                            }
+                            o.tags.push("import-ok".into());
+                        }
+                        (Err(e), None) => {
+                            if e.kind != WscStoreObstructionKind::DuplicateEnvelopeMismatch {
+                                fail(&mut o, "C20.wsc-untyped-conflict", format!("{at}: {:?}", e.kind));
+                            }
+                            o.tags.push("import-conflict".into());
+                        }
+                        (Ok(_), None) => fail(&mut o, "C20.wsc-alias-exported", format!("{at}: conflicting records across envelopes were merged")),
+                        (Err(e), Some(_)) => fail(&mut o, "C20.wsc-export-refused-valid", format!("{at}: import refused: {:?}", e.kind)),
+                    }
+                }
+            }
+            WCmd::Reopen => s = wopen(&root)?,
+        }
+        check_all(&mut o, &s, &pristine_marker, &at);
+    }
+    // ---- withhold / corrupt every committed envelope in turn
+    for env in envs.iter().flatten() {
+        let (ep, mp) = (s.envelope_path(env.id()), s.commit_marker_path(env.id()));
+        if s.read_envelope(env.id()).is_err() {
+            continue;
+        }
+        let (eb, mb) = (std::fs::read(&ep).map_err(|e| e.to_string())?, std::fs::read(&mp).map_err(|e| e.to_string())?);
+        let step = if tier == Tier::Thorough { 1 } else { 7 };
+        for p in (0..eb.len()).step_by(step) {
+            let mut bad = eb.clone();
+            bad[p] ^= 0x10;
+            std::fs::write(&ep, &bad).map_err(|e| e.to_string())?;
+            if s.read_envelope(env.id()).is_ok() {
+                fail(&mut o, "C20.wsc-read-not-intact", format!("sweep: envelope byte {p} corrupted, read_envelope still Ok"));
+            }
+        }
+        std::fs::write(&ep, &eb).map_err(|e| e.to_string())?;
+        for p in (0..mb.len()).step_by(step.min(3)) {
+            let mut bad = mb.clone();
+            bad[p] ^= 0x10;
+            std::fs::write(&mp, &bad).map_err(|e| e.to_string())?;
+            if s.read_envelope(env.id()).is_ok() {
+                fail(&mut o, "C20.wsc-read-not-intact", format!("sweep: marker byte {p} corrupted, read_envelope still Ok"));
+            }
+        }
+        std::fs::write(&mp, &mb).map_err(|e| e.to_string())?;
+        rm_file(&ep)?;
+        match s.read_envelope(env.id()) {
+            Err(e) if e.kind == WscStoreObstructionKind::IncompleteEnvelopeWrite => {}
+            _ => fail(&mut o, "C20.wsc-wrong-obstruction", "sweep: withheld envelope file not reported as IncompleteEnvelopeWrite".into()),
+        }
+        rm_file(&mp)?;
+        match s.read_envelope(env.id()) {
+            Err(e) if e.kind == WscStoreObstructionKind::MissingEnvelope => {}
+            _ => fail(&mut o, "C20.wsc-wrong-obstruction", "sweep: fully withheld envelope not reported as MissingEnvelope".into()),
+        }
+        std::fs::write(&ep, &eb).map_err(|e| e.to_string())?;
+        std::fs::write(&mp, &mb).map_err(|e| e.to_string())?;
+        if s.read_envelope(env.id()).ok().as_ref() != Some(env) {
+            fail(&mut o, "C20.wsc-read-not-intact", "sweep: restored material not readable".into());
+        }
+        o.tags.push("sweep-withhold-corrupt".into());
+    }
+    o.tags.sort();
+    o.tags.dedup();
+    o.nontrivial = committed_once && c.cmds.len() >= 2;
+    Ok(o)
+}
+
+/// 0 mostly, 1 with probability 1/(2p): a rare variation of an otherwise shared field.
+fn rare(rng: &mut Rng, p: u64) -> u64 {
+    if rng.chance(1, p) {
+        rng.below(2)
+    } else {
+        0
+    }
+}
+
+fn gen_wsc(rng: &mut Rng, tier: Tier) -> Vec<String> {
+    let n = if tier == Tier::Thorough { 1500 } else { 200 };
+    let mut out = Vec::new();
+    for case in 0..n {
+        let nsets = rng.range(1, 3) as usize;
+        // a small pool of records; sets draw from it so that envelopes overlap, repeat and conflict
+        let mut pool_m: Vec<RetainedMaterialRecord> = Vec::new();
+        for _ in 0..rng.range(2, 5) {
+            pool_m.push(RetainedMaterialRecord {
+                material_digest: small_id(rng.below(4)),
+                semantic_coordinate_digest: small_id(10 + rare(rng, 6)),
+                kind: KINDS[if rng.chance(1, 8) { rng.below(7) as usize } else { 0 }],
+                posture: POSTURES[if rng.chance(1, 8) { rng.below(6) as usize } else { 0 }],
+            });
+        }
+        let mut pool_r: Vec<ReadingRefRecord> = Vec::new();
+        for _ in 0..rng.range(1, 4) {
+            pool_r.push(ReadingRefRecord {
+                reading_id: small_id(20 + rng.below(3)),
+                semantic_coordinate_digest: small_id(30 + rare(rng, 6)),
+                payload_digest: small_id(40),
+                envelope_digest: small_id(50 + rare(rng, 8)),
+                posture: POSTURES[if rng.chance(1, 8) { rng.below(6) as usize } else { 0 }],
+            });
+        }
+        let mut line = format!("{nsets}");
+        let mut ok_sets = 0;
+        let mut prev_m: Vec<RetainedMaterialRecord> = Vec::new();
+        for si in 0..nsets {
+            let (ms, rs): (Vec<_>, Vec<_>) = if si > 0 && !prev_m.is_empty() && rng.chance(1, 4) {
+                // a twin of an earlier set: one material re-filed under another semantic coordinate, so
+                // each envelope is fine alone and the pooled import must refuse to alias them
+                let mut m: Vec<RetainedMaterialRecord> = prev_m.clone();
+                let k = rng.below(m.len() as u64) as usize;
+                m[k].semantic_coordinate_digest = small_id(12);
+                (m, Vec::new())
+            } else if si > 0 && rng.chance(1, 5) {
+                // same records as a previous draw would give, in another order: same envelope id
+                let mut m = pool_m.clone();
+                rng.shuffle(&mut m);
+                (m, pool_r.clone())
+            } else {
+                let km = rng.below(pool_m.len() as u64 + 1) as usize;
+                let kr = rng.below(pool_r.len() as u64 + 1) as usize;
+                let mut m: Vec<_> = (0..km).map(|_| *rng.pick(&pool_m)).collect();
+                let r: Vec<_> = (0..kr).map(|_| *rng.pick(&pool_r)).collect();
+                rng.shuffle(&mut m);
+                (m, r)
+            };
+            let idt = match retention_records_to_wsc_envelope(&ms, &rs) {
+                Ok(e) => {
+                    ok_sets += 1;
+                    if prev_m.is_empty() {
+                        prev_m = ms.clone();
+                    }
+                    hex(&e.id().as_hash())
+                }
+                Err(_) => "-".to_string(),
+            };
+            let r = WscRetentionRecords { materials: ms, readings: rs };
+            line.push_str(&format!(" {idt} {}", recs_s(&r).replacen("m ", "", 1).replacen(" r ", " ", 1)));
+        }
+        let _ = ok_sets;
+        let nops = if case % 17 == 0 { rng.range(20, 35) } else { rng.range(2, 12) };
+        let ns = nsets as u64;
+        let ops: Vec<String> = (0..nops)
+            .map(|_| match rng.below(24) {
+                0..=5 => format!("write {}", rng.below(ns)),
+                6 | 7 => format!("stage {}", rng.below(ns)),
+                8 | 9 => format!("commit {}", rng.below(ns)),
+                10..=12 => format!("read {}", rng.below(ns)),
+                13 => format!("delenv {}", rng.below(ns)),
+                14 => format!("delmark {}", rng.below(ns)),
+                15 | 16 => {
+                    // header field starts, boundaries, and the last payload byte (offset >= 124)
+                    let k = if rng.chance(1, 3) { 1_000_000 } else if rng.chance(1, 2) { *rng.pick(&[0u64, 8, 10, 12, 44, 76, 108, 116, 123]) } else { rng.below(ENV_HEADER_LEN) };
+                    format!("flipenv {} {k}", rng.below(ns))
+                }
+                17 | 18 => {
+                    let k = if rng.chance(1, 2) { *rng.pick(&[0u64, 8, 10, 12, 44, 76, 108, 140, 148, 156, 187]) } else { rng.below(MARKER_LEN) };
+                    format!("flipmark {} {k}", rng.below(ns))
+                }
+                19 => format!("plantenv {} {}", rng.below(ns), rng.below(ns)),
+                20 => "list".into(),
+                21 | 22 => "import".into(),
+                _ => "reopen".into(),
             })
             .collect();
         line.push_str(&format!(" {} {}", ops.len(), ops.join(" ")));
